@@ -257,6 +257,8 @@ def drive(sess, script, max_rounds=600):
                 conns = sess.dev_conns.get(step[1], [])
                 if conns:
                     evs.append("EOF %s" % conns[-1][0])
+        if waiting is None and sleep_until is None and i >= len(script) and not evs:
+            return True                          # script done (the daemon may still have timers: pings, back-off)
         # the clock: events happen now; without events the daemon sleeps its full time-out
         if r.ready > 0:
             adv = 0                                  # something is ready already: poll returns at once
